@@ -5,6 +5,9 @@
 -/
 import ProphyModel.Generated.PyScalars
 import ProphyModel.Generated.ProphycSizes
+import ProphyModel.Generated.Ranges
+import ProphyModel.Expr
+import ProphyModel.Accept
 import ProphyModel.Py
 import ProphyModel.Spec
 namespace Prophy.Tables
@@ -45,6 +48,24 @@ theorem pyScalars_complete :
 
 theorem pyAlign_is_size : Generated.pyAlignIsSize = true := by decide
 theorem pyArrayGuard_eq : Generated.pyArrayGuard = Py.arrayGuard := by decide
+/-- the model's `Py.decSizer` bounds the ELEMENT count: the source subtracts the shift before comparing with the guard (D144) -/
+theorem pyGuard_after_shift : Generated.pyGuardAfterShift = true := by decide
+
+/-- the ranges of prophyc's legality checks are the ones the model assumes: enumerators and discriminators in 32 bits for the
+    parser and for the model-level validation alike (`Accept.front`, `Accept.model`: `< 2 ^ 32`), constants in
+    [-2^63, 2^64) for the parser and the model-level validation (`Expr.constOk`), types below 2^64 bytes -/
+theorem legality_ranges_are_source :
+    Generated.modelValueLow = 0 ∧ Generated.modelValueHigh = 2 ^ 32 - 1 ∧ Generated.parserValueHighs = [2 ^ 32 - 1]
+    ∧ Generated.modelConstLowBits = 63 ∧ Generated.modelConstHighBits = 64
+    ∧ Generated.parserConstLowBits = Generated.modelConstLowBits ∧ Generated.parserConstHighBits = Generated.modelConstHighBits
+    ∧ Generated.modelSizeBits = 64 := by decide
+
+/-- `Expr.constOk` is that range -/
+theorem constOk_is_source (v : Int) :
+    Expr.constOk v = (decide (-((2 ^ Generated.parserConstLowBits : Nat) : Int) ≤ v) && decide (v < ((2 ^ Generated.parserConstHighBits : Nat) : Int))) := by
+  unfold Expr.constOk Generated.parserConstLowBits Generated.parserConstHighBits
+  rfl
+
 theorem pyFlag_is_u32 : Generated.pyFlagType = "u32" ∧ Generated.pyDiscType = "u32" := by decide
 
 def builtinRowOk (r : String × Nat) : Bool :=
